@@ -805,7 +805,7 @@ class Interp:
         if name is None:
             raise Unsupported("call target")
         # builtins: evaluate value arguments left to right (type arguments are not evaluated)
-        type_arg_positions = {"convert": {1}, "empty": {0}, "min_value": {0}, "max_value": {0}}.get(name, set())
+        type_arg_positions = {"convert": {1}, "empty": {0}, "min_value": {0}, "max_value": {0}, "epsilon": {0}}.get(name, set())
         frontier = [(st, [])]
         for k, a in enumerate(node.args):
             if k in type_arg_positions:
@@ -957,9 +957,22 @@ class Interp:
         if name == "pow_mod256":
             from vverif import spec_evm as SE
 
+            ca, cb = z3.simplify(args[0]), z3.simplify(args[1])
+            if z3.is_bv_value(ca) and z3.is_bv_value(cb):
+                return st, BV(pow(ca.as_long(), cb.as_long(), 2**256))
             return st, SE.bv_op("exp", args[0], args[1])
         if name == "keccak256" and tname(self.typ(node.args[0])) == "bytes32":
             return st, Mx.keccak_fn(32)(args[0])
+        if name == "keccak256":
+            from vverif.spec_abi import Dyn
+
+            b = args[0]
+            ln = z3.simplify(b.len) if isinstance(b, Dyn) else None
+            if ln is None or not z3.is_bv_value(ln) or not (0 < ln.as_long() <= 256):
+                raise Unsupported("keccak256 of a byte string of symbolic length")
+            k = ln.as_long()
+            data = z3.Concat(*[z3.Select(b.data, BV(j)) for j in range(k)]) if k > 1 else z3.Select(b.data, BV(0))
+            return st, Mx.keccak_fn(k)(z3.simplify(data))
         if name == "floor":
             a, = args
             D = BV(V.DEC_DIV)
@@ -1014,17 +1027,23 @@ class Interp:
         from vyper.semantics.types.function import StateMutability
 
         env = self.env
-        words = []
-        for t, v in zip(arg_types, args):
-            if not is_word(t) and members(t) is None:
-                raise Unsupported("dynamic external-call argument")
-            words += flatten(t, v)
+        from vverif import spec_abi as A0
+
         sig = fn_t.name + "(" + ",".join(t.abi_type.selector_name() for t in arg_types) + ")"
-        mem = ByteMem(z3.K(W, z3.BitVecVal(0, 8)))
-        mem = mem.store(BV(0), BV(keccak4(sig) << 224))
-        for i, w in enumerate(words):
-            mem = mem.store(BV(4 + 32 * i), w)
-        payload = {"len": BV(4 + 32 * len(words)), "off": BV(0), "mem": mem}
+        if any(A0.is_dynamic(t) for t in arg_types):
+            enc = A0.encode(arg_types, args)
+            selw = BV(keccak4(sig) << 224)
+            body = A0.Enc(BV(4) + enc.len, lambda i: z3.If(z3.ULT(i, BV(4)), A0.word_byte(selw, i), enc.byte(i - BV(4))))
+            payload = body.as_data()
+        else:
+            words = []
+            for t, v in zip(arg_types, args):
+                words += flatten(t, v)
+            mem = ByteMem(z3.K(W, z3.BitVecVal(0, 8)))
+            mem = mem.store(BV(0), BV(keccak4(sig) << 224))
+            for i, w in enumerate(words):
+                mem = mem.store(BV(4 + 32 * i), w)
+            payload = {"len": BV(4 + 32 * len(words)), "off": BV(0), "mem": mem}
         static = fn_t.mutability in (StateMutability.VIEW, StateMutability.PURE)
         rt = fn_t.return_type
         skip = kws.get("skip_contract_check", False)
@@ -1045,8 +1064,27 @@ class Interp:
         st = st.assume(ok)
         if rt is None:
             return [(st, None)]
-        if not is_word(rt) and members(rt) is None:
-            raise Unsupported("dynamic external-call return type")
+        from vverif import spec_abi as A
+
+        if A.is_dynamic(rt):
+            from vyper.semantics.types import TupleT
+
+            types = list(rt.member_types) if (isinstance(rt, TupleT) and len(rt.member_types) > 1) else [rt]
+            outs = []
+            if has_default:
+                s0 = st.assume(rsize == 0)
+                if not skip:
+                    s0 = self.require(s0, env.extcodesize(to) != 0)
+                outs.append((s0, kws["default_return_value"]))
+                st = st.assume(rsize != 0)
+            head = 32 * sum(A.head_words(t) for t in types)
+            st = self.require(st, z3.UGE(rsize, BV(head)))
+            src_rd = A.Src(lambda i: z3.If(z3.ULT(i, rsize), z3.Select(rdata, i), z3.BitVecVal(0, 8)), rsize, bounded=True)
+            vals, ok, canon, end = A.decode_tuple(types, src_rd, BV(0))
+            self.may_revert.append(z3.And(st.pc, z3.Not(z3.And(ok, canon, z3.UGE(rsize, end)))))
+            st = self.require(st, ok)
+            outs.append((st, vals if len(types) > 1 else vals[0]))
+            return outs
         n = n_words(rt)
         outs = []
         if has_default:
